@@ -13,7 +13,8 @@
    Standing assumptions of the model (stated again in meta/C31.json):
      - the backend host text is ASCII (EqualFold is modelled against an ASCII right-hand side);
      - client / backend IPs are 4 or 16 bytes long (net.TCPAddr of an established connection);
-     - the route was chosen ("*" host), exactly one backend, dial succeeds. *)
+     - the route was chosen ("*" host); its backends are tried in config order, the dials of the
+       leading ones fail (connection refused), the last one is reachable. *)
 From Coq Require Import List Arith NArith Bool.
 From Verif Require Import Base.Hex Base.VarInt.
 Import ListNotations.
@@ -446,7 +447,8 @@ Record route := mkRoute {
   r_realip : bool;           (* tcpShieldRealIP || realIP *)
   r_cache : bool;            (* CachePingEnabled(): status pings re-encode the handshake *)
   r_backend_host : bytes;    (* netutil.HostStr(backendAddr), ASCII *)
-  r_backend : endpoint       (* dst.RemoteAddr() *)
+  r_backend : endpoint;      (* dst.RemoteAddr() of the backend that finally serves *)
+  r_failed : list bytes      (* host texts of the backends tried before it whose dial failed, in order *)
 }.
 
 Definition frame (p : bytes) : bytes := enc (len p) ++ p.
@@ -520,6 +522,27 @@ Section Flow.
              (p : bytes) (h : handshake) (rest : bytes) : bytes :=
     proxy_prefix r ca ++ handshake_frame r ca now false p h ++ rest.
 
+  (* dialRoute on a backend whose dial fails: the error is returned right after DialContext, before
+     the PROXY header, the rewrites and update() — the shared *packet.Handshake and its
+     PacketContext (payload p) are left as they were.  [host] is that backend's host text. *)
+  Definition dial_refused (st : bytes * handshake) (host : bytes) : bytes * handshake := st.
+
+  (* tryBackends: ONE handshake / packet context pair is threaded through all attempts (findRoute hands
+     out the backends one by one, sequential strategy = config order) *)
+  Definition try_backends (failed : list bytes) (p : bytes) (h : handshake) : bytes * handshake :=
+    fold_left dial_refused failed (p, h).
+
+  (* what the serving backend receives after the failed attempts recorded in the route *)
+  Definition failover_stream (r : route) (ca : endpoint) (now : N)
+             (p : bytes) (h : handshake) (rest : bytes) : bytes :=
+    let '(p', h') := try_backends (r_failed r) p h in
+    lite_backend_stream r ca now p' h' rest.
+
+  Definition failover_status_stream (r : route) (ca : endpoint) (now : N)
+             (p : bytes) (h : handshake) (q : bytes) : bytes :=
+    let '(p', h') := try_backends (r_failed r) p h in
+    proxy_prefix r ca ++ handshake_frame r ca now (r_cache r) p' h' ++ frame q.
+
   Inductive flow :=
   | FlowNone                    (* the proxy closes the client without contacting a backend *)
   | FlowForward (s : bytes)     (* login / transfer: everything the backend receives *)
@@ -530,9 +553,8 @@ Section Flow.
   Definition lite_flow (r : route) (ca : endpoint) (now : N) (cs : bytes) : flow :=
     match classify cs with
     | ReqNone => FlowNone
-    | ReqForward p h rest => FlowForward (lite_backend_stream r ca now p h rest)
-    | ReqStatus p h q =>
-      FlowStatus (proxy_prefix r ca ++ handshake_frame r ca now (r_cache r) p h ++ frame q)
+    | ReqForward p h rest => FlowForward (failover_stream r ca now p h rest)
+    | ReqStatus p h q => FlowStatus (failover_status_stream r ca now p h q)
     end.
 End Flow.
 
